@@ -65,6 +65,7 @@ var (
 	cNoExec   = flag.Bool("noexec", false, "internal: compile only")
 	cBarrier  = flag.String("barrier", "", "internal: wait for this file to exist before compiling")
 	cJobs     = flag.String("jobs", "", "internal: batch job file")
+	cCPU      = flag.String("cpu", "", "internal: play another machine (noabm = this CPU without ABM)")
 )
 
 var (
@@ -193,6 +194,7 @@ type Job struct {
 }
 
 func childMain() {
+	applyCPUFlag(*cCPU)
 	mod, err := os.ReadFile(*cMod)
 	if err != nil {
 		fmt.Fprintln(os.Stderr, "child: ", err)
@@ -1677,7 +1679,7 @@ func main() {
 	for _, m := range mods {
 		if okMods[m] {
 			m := m
-			par(func() { m.determinism(procs); m.crossExecutable() })
+			par(func() { m.determinism(procs); m.crossExecutable(); m.otherMachine() })
 		}
 	}
 	wg.Wait()
